@@ -122,7 +122,9 @@ CHECKS.update({
             'product semantics. Shapes force every branch of the quantifier elimination (CTL-shaped, '
             'LTL-only A, LTL-only E, quantifier under a temporal operator, Boolean roots).',
             'Trusted: mc/refsem.py Sem; top-level quantified verdicts certified by witness lassos '
-            'evaluated literally, negative verdicts swept over all bounded lassos for n<=2.', TECH, '7/C03'),
+            'evaluated literally, negative verdicts swept over all bounded lassos for n<=2. Finding D15 (an atom '
+            'spelled like the fresh name of a quantified subformula is captured) is listed in known_findings.json '
+            'and matched by input shape and answer.', TECH, '7/C03'),
     'C04': ('No reference: equations between results of the real checkers. Every ordered pair of a '
             '16-formula pool instantiated in the Boolean, duality and fixpoint-expansion laws for CTL '
             'and CTL* (LTL: conjunction, double negation, U/R/G expansion, duality) on all 148 labelled '
@@ -138,7 +140,9 @@ CHECKS.update({
             'by harness-side wrappers; all 24 renamings of 4-state structures; the result mapped back '
             'must equal the base result. Hash seeds: fixed instance list in fresh interpreters.',
             'The seed space (2^32) is sampled, not enumerated; what is enumerated is the set of orders '
-            'a seed can induce where order can matter. No reference semantics used.', TECH, '7/C06'),
+            'a seed can induce where order can matter. No reference semantics used. Finding D14 (a formula atom '
+            'named fair captured by the fair label) is listed in known_findings.json and matched by input shape.',
+            TECH, '7/C06'),
     'C07': ('Stateless search over call histories: every ordered pair of a 294-operation alphabet '
             '(checker x structure x formula x object/text/text-without-parser x F) and every triple of a '
             'sub-alphabet, all calls of a history sharing one live pool of caller-owned objects; after '
